@@ -1,11 +1,152 @@
 package main
 
 import (
+	"fmt"
+	"os"
+	"os/exec"
+	"path/filepath"
+	"sort"
+	"strings"
+
 	"verif/checker/internal/core"
 	"verif/checker/internal/rules"
 )
 
-// thorough runs the deeper tier; filled in later (mutant battery, second build configuration).
+// thorough runs the deeper tier for one property:
+//  1. the same rule set on a second build configuration (GOARCH=386: the only build-dependent code is
+//     pmath's bit size, but every package is re-type-checked and re-lowered) - new violations there count;
+//  2. the variant battery: every /verif/mutants/<ID>-*.patch (a known-bad variant that compiles and passes
+//     the unedited suite) and every ok-*.patch (behaviour-preserving refactor) is applied to a scratch copy
+//     of the CURRENT working tree outside /repo and /verif and analysed (never executed) by this binary;
+//     the outcome is recorded in the evidence as a self-test of the rules on this tree. Patches that do not
+//     apply to the tree under test are skipped.
 func thorough(p *core.Prog, pr *rules.Property, c *core.Ctx, verif, repo string, out *core.Outcome) map[string]interface{} {
-	return map[string]interface{}{}
+	res := map[string]interface{}{}
+	// ---- 1. second configuration
+	if p386, err := core.Load(repo, "GOARCH=386"); err != nil {
+		res["goarch_386"] = "load failed: " + err.Error()
+		c.Unk("config", "GOARCH=386/load", "", "the repository does not load under GOARCH=386: "+err.Error())
+		*out = *c.Finish(nil)
+	} else {
+		c2 := core.NewCtx(p386, pr.ID)
+		func() {
+			defer func() {
+				if r := recover(); r != nil {
+					c2.Unk("internal", "checker-panic@386", "", fmt.Sprint(r))
+				}
+			}()
+			pr.Run(c2)
+		}()
+		known := map[string]bool{}
+		for _, o := range c.Obs {
+			known[o.Key+"|"+string(o.Status)] = true
+		}
+		diff := 0
+		for _, o := range c2.Obs {
+			if !known[o.Key+"|"+string(o.Status)] {
+				diff++
+				if o.Status != core.Discharged {
+					o.Key += "@GOARCH=386"
+					c.Obs = append(c.Obs, o)
+				}
+			}
+		}
+		res["goarch_386"] = map[string]interface{}{"obligations": len(c2.Obs), "verdict_differences": diff}
+	}
+
+	// ---- 2. variant battery
+	self, _ := os.Executable()
+	patches, _ := filepath.Glob(filepath.Join(verif, "mutants", pr.ID+"-*.patch"))
+	oks, _ := filepath.Glob(filepath.Join(verif, "mutants", "ok-*.patch"))
+	seeds, _ := filepath.Glob(filepath.Join(verif, "seeded", pr.ID+"-*", "patch.diff"))
+	sort.Strings(patches)
+	sort.Strings(oks)
+	sort.Strings(seeds)
+	var caught, missed, skipped, okSilent, okAlarm []string
+	run := func(patch string) (string, string) {
+		tmp, err := os.MkdirTemp("", "nl-variant.")
+		if err != nil {
+			return "skipped", err.Error()
+		}
+		defer os.RemoveAll(tmp)
+		cp := exec.Command("sh", "-c", fmt.Sprintf("cd %q && tar --exclude=.git -cf - . | (cd %q && tar -xf -)", repo, tmp))
+		if b, err := cp.CombinedOutput(); err != nil {
+			return "skipped", string(b)
+		}
+		ap := exec.Command("git", "apply", "--whitespace=nowarn", patch)
+		ap.Dir = tmp
+		if err := ap.Run(); err != nil {
+			ap2 := exec.Command("patch", "-p1", "-s", "-i", patch)
+			ap2.Dir = tmp
+			if err2 := ap2.Run(); err2 != nil {
+				return "skipped", "patch does not apply to the tree under test"
+			}
+		}
+		cmd := exec.Command(self, "-repo", tmp, "-property", pr.ID, "-no-evidence", "-verif", verif)
+		b, _ := cmd.CombinedOutput()
+		s := string(b)
+		switch {
+		case strings.Contains(s, "LOAD-FAILURE"):
+			return "skipped", "variant does not type-check on the tree under test"
+		case strings.Contains(s, "VIOLATION property="+pr.ID):
+			first := ""
+			for _, ln := range strings.Split(s, "\n") {
+				if strings.Contains(ln, "[violated]") || strings.Contains(ln, "[undecided]") {
+					first = strings.TrimSpace(ln)
+					break
+				}
+			}
+			return "alarm", first
+		default:
+			return "silent", ""
+		}
+	}
+	name := func(pth string) string {
+		b := strings.TrimSuffix(filepath.Base(pth), ".patch")
+		if b == "patch.diff" {
+			b = "seeded/" + filepath.Base(filepath.Dir(pth))
+		}
+		return b
+	}
+	details := map[string]string{}
+	for _, m := range append(patches, seeds...) {
+		st, d := run(m)
+		switch st {
+		case "alarm":
+			caught = append(caught, name(m))
+			details[name(m)] = d
+		case "silent":
+			missed = append(missed, name(m))
+		default:
+			skipped = append(skipped, name(m)+": "+d)
+		}
+	}
+	for _, m := range oks {
+		st, d := run(m)
+		switch st {
+		case "alarm":
+			okAlarm = append(okAlarm, name(m)+": "+d)
+		case "silent":
+			okSilent = append(okSilent, name(m))
+		default:
+			skipped = append(skipped, name(m)+": "+d)
+		}
+	}
+	res["variants"] = map[string]interface{}{
+		"bad_variants_reported":       caught,
+		"bad_variants_missed":         missed,
+		"refactor_variants_silent":    okSilent,
+		"refactor_variants_alarmed":   okAlarm,
+		"skipped":                     skipped,
+		"first_report_per_bad_variant": details,
+		"note":                        "variants are analysed statically on scratch copies of the current working tree; they are a self-test of the rules, not part of the verdict on the tree under test",
+	}
+	fmt.Printf("  thorough: GOARCH=386 re-analysis done; variants: %d bad reported, %d bad missed, %d refactors silent, %d refactors alarmed, %d skipped\n", len(caught), len(missed), len(okSilent), len(okAlarm), len(skipped))
+	for _, m := range missed {
+		fmt.Printf("  SELFTEST-MISSED %s (a known-bad variant of this tree is not reported by the %s rules)\n", m, pr.ID)
+	}
+	for _, m := range okAlarm {
+		fmt.Printf("  SELFTEST-FALSE-ALARM %s\n", m)
+	}
+	return res
 }
